@@ -190,12 +190,13 @@ Qed.
 (* `n.x` (and `a.b.x`): when the prefix denotes the namespace of file g, and x is a variable of g's
    table, the access IS that variable -- whatever the scope stack holds *)
 Theorem import_transparent_ns fl fuel st a g gid g' tg x xsp asp v :
+  access_local_first fl && root_on_stack st a = false ->   (* no local of that name hides the namespace *)
   ns_path st (sp_file asp) a g ->
   f2n_get (st_n2f st) g = Some gid -> n2f_get (st_n2f st) gid = Some g' -> fol_get (st_ns st) g' = Some tg ->
   ns_get tg x = Some (NName v) ->
   assign_r fl (S fuel) (AAccess a (mkIdent x xsp) asp) st = Ok (ERead v xsp, st).
 Proof.
-  intros Hp Hg Hf Ht Hx. cbn [assign_r]. unfold bind, lift, namespace_list.
+  intros Hl Hp Hg Hf Ht Hx. cbn [assign_r]. unfold bind, lift, access_namespace, namespace_list. rewrite Hl.
   rewrite (namespace_file_path _ _ _ _ Hp). cbn. rewrite Hg. cbn.
   unfold lookup_global. rewrite Hf, Ht. cbn. rewrite Hx. reflexivity.
 Qed.
@@ -248,4 +249,4 @@ Definition reexport_c : pmodule :=
 Theorem reexport_order_dependent : forall fl,
   resolve fl [reexport_main; reexport_b; reexport_c] = Err [mkRErr ECannotFind (spn 0 1)]
   /\ exists r, resolve fl [reexport_c; reexport_b; reexport_main] = Ok r.
-Proof. intros [[] [] []]; (split; [vm_compute; reflexivity|eexists; vm_compute; reflexivity]). Qed.
+Proof. intros [[] [] [] []]; (split; [vm_compute; reflexivity|eexists; vm_compute; reflexivity]). Qed.
